@@ -4,6 +4,7 @@ import (
 	"errors"
 	"io"
 	"math"
+	"math/big"
 	"regexp"
 	"strconv"
 	"strings"
@@ -501,7 +502,7 @@ func parseInt(s string, base int) (Value, error) {
 	for ; i < len(s); i++ {
 		if n >= cutoff {
 			// n*base overflows
-			return parseLargeInt(float64(n), s[i:], base, sign)
+			return parseLargeInt(n, s[i:], base, sign)
 		}
 		v := digitVal(s[i])
 		if v >= base {
@@ -512,7 +513,7 @@ func parseInt(s string, base int) (Value, error) {
 		n1 := n + int64(v)
 		if n1 < n || n1 > maxVal {
 			// n+v overflows
-			return parseLargeInt(float64(n)+float64(v), s[i+1:], base, sign)
+			return parseLargeInt(n/int64(base), s[i:], base, sign)
 		}
 		n = n1
 	}
@@ -523,6 +524,9 @@ func parseInt(s string, base int) (Value, error) {
 	}
 
 	if sign {
+		if n == 0 {
+			return _negativeZero, nil
+		}
 		n = -n
 	}
 	return intToValue(n), nil
@@ -531,21 +535,29 @@ Error:
 	return _NaN, err
 }
 
-func parseLargeInt(n float64, s string, base int, sign bool) (Value, error) {
+// parseLargeInt continues the accumulation of parseInt exactly (in a big.Int) once the value no longer fits into
+// an int64, and rounds the final integer to the nearest Number (ties to even) as 𝔽(mathInt) requires.
+func parseLargeInt(n int64, s string, base int, sign bool) (Value, error) {
 	i := 0
-	b := float64(base)
 	for ; i < len(s); i++ {
-		v := digitVal(s[i])
-		if v >= base {
+		if digitVal(s[i]) >= base {
 			break
 		}
-		n = n*b + float64(v)
+	}
+	z := big.NewInt(n)
+	if i > 0 {
+		rest, ok := new(big.Int).SetString(s[:i], base)
+		if !ok {
+			return _NaN, strconv.ErrSyntax
+		}
+		z.Mul(z, new(big.Int).Exp(big.NewInt(int64(base)), big.NewInt(int64(i)), nil))
+		z.Add(z, rest)
 	}
 	if sign {
-		n = -n
+		z.Neg(z)
 	}
-	// We know it can't be represented as int, so use valueFloat instead of floatToValue
-	return valueFloat(n), nil
+	f, _ := new(big.Float).SetInt(z).Float64()
+	return floatToValue(f), nil
 }
 
 var (
